@@ -304,6 +304,35 @@ def obs_diamond(ctx, k, act, d, nv, problems):
     ctx["emit"].append(case)
 
 
+# ------------------------------------------------------------------ C19: the combine plan of the Blelloch scan (Blelloch.tla)
+def obs_blelloch(ctx, k, act, d, nv, problems):
+    """For a Cumulative(method="blelloch") action on a 1-D operand: read the combine tasks off the collection's own raw
+    graph as triples (level, i, j) = "at this level value i := value j (+) value i"."""
+    if act.get("a") != "Cumulative" or act.get("method") != "blelloch" or d is None or d.ndim != 1:
+        return
+    try:
+        with warnings.catch_warnings():
+            warnings.simplefilter("ignore")
+            e = d.expr
+            node = next((n for n in e.walk() if type(n).__name__ == "CumReductionBlelloch"), None)
+            if node is None:
+                return
+            layer = node._layer()
+    except Exception as ex:
+        ctx["emit"].append({"fn": "blelloch-raised", "at": k, "err": f"{type(ex).__name__}: {str(ex)[:160]}"})
+        return
+    name = node._name
+    plan = []
+    for key, task in layer.items():
+        # combine keys: (name, block index, level, i); their task is (binop, left value, right value)
+        if not (isinstance(key, tuple) and key[0] == name and len(key) == 4):
+            continue
+        left = task[1]
+        plan.append([int(key[2]), int(key[3]), int(left[3]) if len(left) == 4 else int(left[1])])
+    nb = int(node.array.numblocks[0])
+    ctx["emit"].append({"fn": "blelloch", "at": k, "n": max(nb - 1, 0), "plan": sorted(plan)})
+
+
 # ------------------------------------------------------------------ C08 (termination, idempotence, no new exception)
 def optimize_case(d, at=0, max_passes=70):
     from dask._expr import collect_dependents
